@@ -360,7 +360,7 @@ Proof.
     + rewrite C. split; [split; [discriminate | intros [H|H]; discriminate] | discriminate].
     + intros _. eauto.
     + discriminate.
-  - unfold admit in H. destruct (notify_empty (ws s) ntf) as [l|] eqn:NE; [|discriminate].
+  - unfold do_admit in H. destruct (notify_empty (ws s) ntf) as [l|] eqn:NE; [|discriminate].
     inversion H; subst s'; clear H.
     apply inv_admit; auto. eapply notify_ok; eauto.
 Qed.
